@@ -2,13 +2,19 @@ package main
 
 import (
 	"container/list"
+	"context"
 	"encoding/json"
 	"errors"
 	"fmt"
+	hio "github.com/hprose/hprose-golang/v3/io"
 	"math/big"
+	"os"
+	"os/exec"
 	"reflect"
+	"runtime/debug"
 	"sort"
 	"strings"
+	"syscall"
 	"time"
 
 	"github.com/google/uuid"
@@ -35,7 +41,7 @@ type c02Edge struct {
 }
 
 type c02Case struct {
-	Kind  string    `json:"kind"` // graph | prefix | tprefix | random
+	Kind  string    `json:"kind"` // graph | prefix | tprefix | random | ptrifacecycle
 	N     int       `json:"n,omitempty"`
 	Edges []c02Edge `json:"edges,omitempty"`
 	Items []int     `json:"items,omitempty"`
@@ -306,6 +312,37 @@ func runC02(a Args) tr.Summary {
 			}
 			g = gen.Gen{Name: "tprefix:struct", T: st, Leaf: "tprefix"}
 			v = sv
+		case "ptrifacecycle":
+			// a cycle that closes through a *interface{} and a slice held by value. In the child (-extra child)
+			// the value is encoded; the parent turns a dead child into the case's encoder panic
+			r := new(interface{})
+			*r = []interface{}{r}
+			g = gen.Gen{Name: "ptrifacecycle:ptr(iface)", T: reflect.TypeOf(r), Leaf: "ptrifacecycle"}
+			v = reflect.ValueOf(r)
+			if a.Extra == "child" {
+				debug.SetMaxStack(32 << 20)
+				b, err := hio.Formatter{Simple: false}.Marshal(r)
+				fmt.Println("ENCODED", len(b), err)
+				return
+			}
+			self, _ := os.Executable()
+			cb, _ := json.Marshal(c)
+			ctx, cancel := context.WithTimeout(context.Background(), 60*time.Second)
+			cmd := exec.CommandContext(ctx, self, "c02", "-only", string(cb), "-extra", "child", "-out", os.DevNull)
+			cmd.SysProcAttr = &syscall.SysProcAttr{Pdeathsig: syscall.SIGKILL}
+			var stderr strings.Builder
+			cmd.Stderr = &stderr
+			err := cmd.Run()
+			cancel()
+			msg := ""
+			if err != nil {
+				msg = "the encoder did not return: " + err.Error()
+				if i := strings.Index(stderr.String(), "fatal error: "); i >= 0 {
+					msg = strings.SplitN(stderr.String()[i:], "\n", 2)[0]
+				}
+			}
+			failedEncode(t, id, g, gen.Val{V: v, Class: "cycle"}, c.Mode, tr.Rec{"input": c, "kind": "c02"}, msg)
+			return
 		case "random":
 			g = gen.RandomOpt(c.Seed, c.N, true)
 			v = g.Vals[0].V
@@ -389,6 +426,9 @@ func runC02(a Args) tr.Summary {
 	}
 	for i := 0; i < nRandom; i++ {
 		run(c02Case{Kind: "random", N: 2 + i%3, Dest: "typed", Mode: "ref", Seed: a.Seed*1000003 + int64(i)})
+		if i == 0 {
+			run(c02Case{Kind: "ptrifacecycle", Dest: "typed", Mode: "ref"})
+		}
 	}
 	sum.Cases = id
 	sum.Events = t.Lines
